@@ -703,6 +703,19 @@ ConnCreateDup(m) ==
   /\ Log("ConnCreateDup", None, <<m, AscBoxes({b \in Boxes : HasMsg(rows[b], m)})>>, "OK")
   /\ UNCHANGED <<rows, uidNext, flg, used, dead, recd, sel, ro, snap, res, q, idle, mirror, taint, ever>>
 
+\* MessagesCreated for a message that exists, naming one mailbox more than it is in (a re-sync after a remote label
+\* change): the message is added there; MessagesCreated never removes anything
+ConnCreateKnown(m, b) ==
+  /\ m \in used /\ ~HasMsg(rows[b], m)
+  /\ LET cur == {x \in Boxes : HasMsg(rows[x], m)}
+         be == BoxEffect(m, cur \cup {b})
+     IN /\ be.fits
+        /\ rows' = be.rows /\ uidNext' = be.next /\ ever' = be.ever
+        /\ q' = EnqueueAll(be.ups)
+        /\ Log("ConnCreateKnown", None, <<m, AscBoxes(cur \cup {b})>>, "OK")
+  /\ wire' = Quiet
+  /\ UNCHANGED <<flg, used, dead, recd, sel, ro, snap, res, idle, mirror, taint>>
+
 \* MessageIDChanged: the remote id of m changes; nothing a client can observe
 ConnIDChanged(m) ==
   /\ m \in used
@@ -791,6 +804,7 @@ Free ==
   \/ On("ConnUpdateSame") /\ \E m \in Msgs : \E B \in SUBSET Boxes : \E F \in ConnFlagSets : ConnUpdateSame(m, B, F)
   \/ On("ConnBad") /\ \E k \in BadKinds : ConnBad(k)
   \/ On("ConnCreateDup") /\ \E m \in Msgs : ConnCreateDup(m)
+  \/ On("ConnCreateKnown") /\ \E m \in Msgs, b \in Boxes : ConnCreateKnown(m, b)
   \/ On("ConnIDChanged") /\ \E m \in Msgs : ConnIDChanged(m)
 
 (* after MaxSteps free steps a simulated behaviour is driven to quiescence:    *)
@@ -837,7 +851,7 @@ KindActs == [sel |-> {"Select", "Examine", "Close", "Unselect"}, append |-> {"Ap
              fetch |-> {"Fetch", "FetchBody", "Refused"}, expunge |-> {"Expunge", "UidExpunge"}, noop |-> {"Noop"},
              copymove |-> {"Copy", "Move"}, idle |-> {"IdleBegin", "IdleDone"},
              deliver |-> {"Deliver"}, deliver2 |-> {"Deliver"}, deliver3 |-> {"Deliver"},
-             conn |-> {"ConnSetBoxes", "ConnSetFlags", "ConnDelete", "ConnUpdateSame", "ConnBad", "ConnCreateDup", "ConnIDChanged"}]
+             conn |-> {"ConnSetBoxes", "ConnSetFlags", "ConnDelete", "ConnUpdateSame", "ConnBad", "ConnCreateDup", "ConnCreateKnown", "ConnIDChanged"}]
 Kinds == {k \in DOMAIN KindActs : \E a \in KindActs[k] : a \in Acts \/ (a \in {"IdleBegin", "IdleDone"} /\ "Idle" \in Acts)}
 DrawKind ==
   /\ pick = None
